@@ -12,12 +12,14 @@ MODULES = ["Gozod.Proofs.C20"]
 REGEX_FORMATS = ["ipv4", "hex", "e164", "mac", "macdash", "base64", "uuid", "uuidv4", "uuidv6", "uuidv7", "guid"]
 THEOREMS = (["Gozod.C20.bisim_sound", "Gozod.C20.bisim_sound_full"]
     + ["Gozod.C20.c20_%s" % f for f in REGEX_FORMATS] + ["Gozod.C20.c20_%s_pattern" % f for f in REGEX_FORMATS]
-    + ["Gozod.C20.c20_cidrv4_pattern", "Gozod.C20.c20_cidrv4", "Gozod.C20.isoDate_quot", "Gozod.C20.c20_isodate_pattern"])
+    + ["Gozod.C20.c20_cidrv4_pattern", "Gozod.C20.c20_cidrv4", "Gozod.C20.isoDate_quot", "Gozod.C20.c20_isodate_pattern",
+       "Gozod.C20.c20_isodatetime_pattern_optsec", "Gozod.C20.c20_isodatetime_pattern_partial", "Gozod.C20.c20_isodatetime_pattern_witness",
+       "Gozod.C20.c20_isodatetime_goparse_witness", "Gozod.C20.c20_base64url_pattern_partial", "Gozod.C20.c20_base64url_pattern_witness"])
 
 # certificate job -> format name of the correspondence
-JOB_FORMAT = {"isodatetime_optsec": "isodatetime"}
+JOB_FORMAT = {"isodatetime_optsec": "isodatetime", "isodatetime_partial": "isodatetime", "base64url_partial": "base64url"}
 # jobs whose certificate the proof module imports (a `differ` there breaks a theorem)
-REQUIRED_JOBS = set(REGEX_FORMATS) | {"cidrv4", "isodate", "isodatetime_optsec"}
+REQUIRED_JOBS = set(REGEX_FORMATS) | {"cidrv4", "isodate", "isodatetime_optsec", "isodatetime_partial", "base64url_partial"}
 
 GEN = os.path.join(C.LEAN, "Gozod", "Gen")
 
@@ -117,7 +119,7 @@ def run(res):
     env = C.goenv(); env["VERIF_REPO"] = C.REPO
     tmp = os.path.join(C.BUILD, "run", "C20-gen-%d" % os.getpid()); os.makedirs(tmp, exist_ok=True)
     with C.Lock("c20gen"):
-        rc, out = C.run([C.harness_bin("C20"), "-out", tmp, "-gen", os.path.join(GEN, "Regexes.lean")], env=env, timeout=600)
+        rc, out = C.run([C.harness_bin("C20"), "-out", tmp, "-gen", GEN], env=env, timeout=600)
     if rc != 0:
         C.tie_broken(res, "translator C20 (pkg/regex -> Gen/Regexes.lean)", out[-3000:]); return res.finish()
     # --- certificates: recompute from the regenerated regexes (written only when changed) ---
